@@ -111,6 +111,23 @@ def _benign_entry(bdir, fn, name, have):
         shutil.rmtree(tmp, ignore_errors=True)
 
 
+def _probe_entry(pdir, fn, have):
+    """hand-made defective variant kept as a complete diff against /repo (selftest/probes/<PID>-<name>.diff): the check of <PID> must report it"""
+    name = 'probe-' + fn[:-5]
+    pid = fn.split('-')[0]
+    tmp = scratch()
+    try:
+        r = subprocess.run(['patch', '-p1', '-s', '-i', os.path.join(pdir, fn)], cwd=tmp + '/repo', stdout=subprocess.DEVNULL, stderr=subprocess.DEVNULL)
+        if r.returncode != 0:
+            return (name, 'mutant', 'SKIP (patch does not apply)'), True
+        res = run_checks(tmp, have if os.environ.get('SELFTEST_ALL') else [pid])
+        hit = {p: r_ for p, r_ in res.items() if r_[0] != 0}
+        good = pid in hit
+        return (name, 'mutant', ('DETECTED by ' + ', '.join(f'{p}:{r_[1][:2]}' for p, r_ in hit.items())) if good else 'MISSED'), good
+    finally:
+        shutil.rmtree(tmp, ignore_errors=True)
+
+
 def main(args):
     """SELFTEST_JOBS=<n> replays n entries concurrently (each on its own scratch copy; the engines' caches are keyed by tree hash)."""
     from concurrent.futures import ThreadPoolExecutor
@@ -130,6 +147,10 @@ def main(args):
         if not os.path.exists(os.path.join(sdir, d, 'meta.json')):
             continue
         tasks.append((_seeded_entry, (d, have)))
+    pdir = os.path.join(HERE, 'selftest', 'probes')
+    for fn in sorted(os.listdir(pdir)) if os.path.isdir(pdir) else []:
+        if fn.endswith('.diff') and (not only or fn[:-5] in only or fn.split('-')[0] in only or 'probes' in only):
+            tasks.append((_probe_entry, (pdir, fn, have)))
     bdir = os.path.join(HERE, 'selftest', 'benign')
     tdir = os.path.join(HERE, 'selftest', 'twins')
     # twins: the refactoring part of a refactoring-plus-defect seed with the defect repaired by hand (behaviour-preserving); the ones listed in
